@@ -511,10 +511,6 @@ def oracle(case, obs):
     t = sp['type']
 
     def bad(site, cls, what):
-        if t == 'nparr' and lc.span_len(sp) in (1, 2) and any(j[0] == 'p' for j in _key_labels(case)) and (cls.startswith('absent-label-') or cls == 'wrong-periods-written'):
-            # kept finding: a tuple label is broadcast against a NumPy-array span by the fallback lookup (the absent label
-            # aliases a period, or raises IndexError / ValueError instead of KeyError; a write through it lands on that period)
-            site, cls = '_locate_period_in_span_fallback(ndarray span, tuple label)', 'broadcast-instead-of-KeyError'
         fails.append({'sig': 'C10|%s|%s' % (site, cls), 'what': what})
     if obs.get('timeout'):
         bad('any', 'timeout', 'no answer within the watchdog limit')
@@ -697,10 +693,8 @@ def _bt_label(sp, labs, text):
 
 
 def guard(case, obs):
-    """Guard class of the kept finding (a tuple label looked up in a NumPy-array span is broadcast against it)."""
-    if case['span']['type'] != 'nparr' or lc.span_len(case['span']) not in (1, 2):
-        return False          # only spans of length 1 or 2 broadcast a tuple label; longer (and empty) spans answer KeyError as the spec wants
-    return any(j is not None and j[0] == 'p' for j in _key_labels(case))
+    """No finding is kept for C10 any more (the tuple-label broadcast was repaired by fix 35fe7e2): K is compared everywhere."""
+    return False
 
 
 def nontrivial(case, obs):
